@@ -114,8 +114,8 @@ func VerifHarness_C04_logon_gap() {
 // C04_recover: recovery in progress, K further events.
 func VerifHarness_C04_recover() {
 	bs := BeginStringFIX42
-	if verifTier() == 1 {
-		bs = verifPickBeginString()
+	if verifTier() == 1 && ndBool("fix41") {
+		bs = BeginStringFIX41 // the other end marker (999999); C04_detect / C04_logon_gap run all four BeginStrings
 	}
 	r := verifNewSession(false, bs)
 	chunk := verifConc(ndInt("chunk", 0, 2))
